@@ -27,7 +27,7 @@ import (
 
 type pxStep struct {
 	Op string `json:"op"` // bulk rotate seal-enter seal-swap seal-install pass stop
-	I  int    `json:"i,omitempty"`
+	I  int    `json:"i"`
 	K  int    `json:"k,omitempty"`
 	N  int    `json:"n,omitempty"`
 }
@@ -242,6 +242,9 @@ func init() {
 			if pxc.sealIdx >= 0 || len(pxc.queue) > 0 {
 				return storectl.Resp{}, errors.New("stop while goroutines of the script are in flight")
 			}
+			if q.K == 1 {
+				fm.WaitIdle() // storeapi.Store.Stop(): FracManager.WaitIdle() before FracManager.Stop()
+			}
 			fm.VerifC15SetFracSize(fm.Active().Info().DocsOnDisk)
 			fm.VerifC15SetTotalSize(1 << 42)
 			fm.Start()
@@ -309,8 +312,8 @@ func pxFixedScripts() []pxScript {
 // pxRandomScript: a random script that ends with every goroutine finished
 func (d *driver) pxRandomScript() pxScript {
 	m := d.r.Intn(3)
-	n := m + 1           // fractions so far
-	listedFrom := 0      // fractions before it are pushed out
+	n := m + 1             // fractions so far
+	listedFrom := 0        // fractions before it are pushed out
 	stage := map[int]int{} // seal goroutine: 0 none, 1 entered, 2 swapped, 3 returned
 	inflight := -1
 	curDocs := false
@@ -386,6 +389,12 @@ func (d *driver) pxRandomScript() pxScript {
 
 func (d *driver) proxyScripts(round int, sorted bool) {
 	scripts := pxFixedScripts()
+	if os.Getenv("VERIF_C15_STORE_STOP") != "" {
+		// NOT part of the registered check: storeapi.Store.Stop() calls FracManager.WaitIdle() first, and
+		// proxyFrac.WaitWriteIdle dereferences f.active, which is nil once retention has pushed out the current fraction
+		// (nil pointer panic on graceful shutdown; reported, see the report of the C15 extension s6). Enable to replay it.
+		scripts = append(scripts, pxScript{"proxy:store-stop-after-retention", 0, []pxStep{{Op: "bulk", N: 2}, {Op: "pass", K: 1}, {Op: "stop", K: 1}}})
+	}
 	nrand := 4
 	if d.tier != "quick" {
 		nrand = 20
